@@ -114,7 +114,9 @@ impl FunctionExpression for DecodeCharsetFn {
         let value = self.value.resolve(ctx)?.try_bytes()?;
         let to_charset = self.to_charset.resolve(ctx)?.try_bytes()?;
 
-        encode_charset(from_utf8(value.as_bytes()).unwrap(), to_charset.as_bytes())
+        // bytes that are not UTF-8 text cannot be transcoded: an error, not a panic
+        let text = from_utf8(value.as_bytes()).map_err(|_| "value is not valid UTF-8")?;
+        encode_charset(text, to_charset.as_bytes())
     }
 
     fn type_def(&self, _state: &TypeState) -> TypeDef {
